@@ -300,6 +300,10 @@ package calendar
 //@   cut offset#1: 0 <= offset && offset <= 9 && implies(lunar.year <= lunar.solar.year, offset == modf(2*(lunar.solar.year-4)+2, 10))
 //@   cut index#4: index == jieCountExact(lunar)-3 && (index < 0) == instBefore(lunar.solar, jqs(lunar, 4)) && -3 <= index && index <= 13
 //@   cut offset#2: 0 <= offset && offset <= 9 && implies(lunar.year <= lunar.solar.year, offset == modf(2*(lunar.solar.year-4)+2, 10))
+//@   hint lunar.monthGanIndex#1: 0 <= lunar.monthGanIndex && lunar.monthGanIndex <= 9 && implies(lunar.year <= lunar.solar.year, lunar.monthGanIndex == modf(2*(lunar.solar.year-4)+2+index, 10))
+//@   hint lunar.monthZhiIndex#1: lunar.monthZhiIndex == modf(index+2, 12)
+//@   hint lunar.monthGanIndexExact#1: 0 <= lunar.monthGanIndexExact && lunar.monthGanIndexExact <= 9 && implies(lunar.year <= lunar.solar.year, lunar.monthGanIndexExact == modf(2*(lunar.solar.year-4)+2+index, 10))
+//@   hint lunar.monthZhiIndexExact#1: lunar.monthZhiIndexExact == modf(index+2, 12)
 
 //@ # day pillar: (jdn - 11) mod 60, i.e. 2000-01-01 (jdn 2451545) is wu-wu (4, 6); the early-rat convention
 //@ # (Exact) moves 23:00-23:59 to the next day, the late-rat convention (Exact2) does not
@@ -399,6 +403,10 @@ package calendar
 //@   ensures sjdn(result.solar) == lunarJdn(lunarYear, lunarMonth, lunarDay) && result.hour == hour && result.minute == minute && result.second == second
 //@   use tableAx(lunarYear)
 //@   use uniqueAx(lunarYear)
+//@   hint m#1: (m == nil) == (findM(lunarYear, lunarMonth) == 15) && 0 <= findM(lunarYear, lunarMonth) && findM(lunarYear, lunarMonth) <= 15 &&
+//@             implies(m != nil, m.year == lunarYear && m.month == lunarMonth && mYat(lunarYear, findM(lunarYear, lunarMonth)) == lunarYear && mMat(lunarYear, findM(lunarYear, lunarMonth)) == lunarMonth &&
+//@               m.dayCount == mDat(lunarYear, findM(lunarYear, lunarMonth)) && m.firstJulianDay == float64(mFat(lunarYear, findM(lunarYear, lunarMonth))))
+//@   hint noon#1: sjdn(noon) == lunarJdn(lunarYear, lunarMonth, lunarDay) && noon.year == yOf(lunarJdn(lunarYear, lunarMonth, lunarDay))
 //@   use yearOfDate(noon.year, noon.month, noon.day) @ noon#1
 //@   use yearOfDate(lunarYear-1, 11, 1) @ noon#1
 //@   use yearOfDate(lunarYear+1, 4, 1) @ noon#1
